@@ -90,6 +90,14 @@ def shard_main(ctx):
     ctx.run_hypothesis([gen.charts(gen.history_profile(), 'null'), gen.event_histories(12, ['a', 'b'])],
                        lambda ch, evs: check_case(ctx, ch, evs, dm='null', extra_labels=['history-profile']), p["examples"], case_repr,
                        name="history")
+    # data-flow profile: assignments (also in targetless transitions) that enable guarded eventless transitions
+    ctx.run_hypothesis([gen.dataflow_charts('lua'), gen.event_histories(8, ['a', 'b'])],
+                       lambda ch, evs: check_case(ctx, ch, evs, extra_labels=['dataflow-profile']), p["examples"], case_repr,
+                       name="dataflow")
+    # completion profile: deep / multi-target initial attributes and <initial> elements on nested charts
+    ctx.run_hypothesis([gen.charts(gen.completion_profile(), 'lua'), gen.event_histories(5, ['a', 'b'])],
+                       lambda ch, evs: check_case(ctx, ch, evs, extra_labels=['completion-profile']), p["examples"], case_repr,
+                       name="completion")
 
 
 def replay(ctx, case):
